@@ -479,6 +479,22 @@ def t17_thai(run, fx):
         run.fail(rule, "thai:" + ",".join(bad)[:80], "is_abovebase_mark differs from the Thai/Lao above-base mark set: %s" % bad[:8], "%s:%s" % (b.file, b.line))
     else:
         run.ok(rule, "%d above-base marks, %d points evaluated" % (len(THAI_LAO_ABOVE), len(pts)))
+    # order of the two steps (Thai/Lao shaping document: SARA AM is decomposed and its nikhahit moved first, the combining-class reordering
+    # follows): nothing that splits or rotates runs after the sort
+    rm = fx.body("scripts::thai_lao::reorder_marks")
+    if rm is None:
+        return run.anchor_missing(rule, "scripts::thai_lao::reorder_marks")
+    sorts = [bi for bi, t in rm.calls() if (t["callee"].get("path") or "").endswith("mcc::sort_by_modified_combining_class") and rm.reachable(bi)]
+    edits = [(bi, (t["callee"].get("path") or "").split("::")[-1]) for bi, t in rm.calls()
+             if (t["callee"].get("path") or "").endswith(("::insert", "::rotate_right", "::rotate_left", "::swap")) and rm.reachable(bi)]
+    if not sorts or not edits:
+        return run.anchor_missing(rule, "the AM split and the combining-class sort in thai_lao::reorder_marks")
+    late = sorted({nm for sb in sorts for bi, nm in edits if bi in rm.reach_from(sb)})
+    if late:
+        run.fail(rule, "thai:sort-before-split", "thai_lao::reorder_marks still edits the text (%s) after sort_by_modified_combining_class: the nikhahit split off a SARA AM "
+                 "is then placed among marks that were ordered without it" % ", ".join(late), "%s:%s" % (rm.file, rm.line))
+    else:
+        run.ok(rule, "the combining-class sort follows the SARA AM split")
 
 
 
